@@ -232,6 +232,14 @@ def c202(ctx):
             ctx.check(R, f, "notify_head", ok, "notify_head runs with %s held or after a completed critical section of it" % sorted(locks),
                       "notify_head can race with the next head's is_head() check (lost wake-up)", pt=pt)
     # (lock held, condvar) table
+    # positive instance for the HELD analysis over RwLock guards: the manifest edit of an ingest runs with LsmTree.mani held
+    fi = ctx.fn(R, TREE + "apply_manifest_ingest")
+    if fi:
+        ap = ctx.calls(R, fi, r"mani::Manifest::apply$")
+        hh = P.held(ctx.prog, fi)
+        for pt in ap:
+            ctx.check(R, fi, "held:rwlock-guard", "LsmTree.mani" in hh.locks_at(pt, must=False), "Manifest::apply runs with the LsmTree.mani write guard held (RwLock guards are tracked)",
+                      "the HELD analysis does not see the RwLock guard of LsmTree.mani at Manifest::apply: lock rules would pass vacuously", pt=pt)
     ww = lf.waits_while_holding()
     seen = set()
     for (lk, c), w in sorted(ww.items()):
